@@ -206,7 +206,7 @@ func c20Check(c c20Case) *vResult {
 		select {
 		case <-done:
 			return time.Since(t0)
-		case <-time.After(6 * time.Second):
+		case <-time.After(25 * time.Second): // far beyond any stall of a busy machine; a blocked publisher never returns
 			return time.Hour
 		}
 	}
@@ -216,7 +216,7 @@ func c20Check(c c20Case) *vResult {
 		})
 	}
 	for i := 0; i < c.Flood; i++ {
-		if d := login(); d > 5*time.Second {
+		if d := login(); d > 20*time.Second {
 			res.violate("blocked-by-slow-subscriber:login", "a login took %v with %d stalled subscribers (flood event %d)", d, c.Stalled, i)
 			return res
 		}
@@ -257,12 +257,12 @@ func c20Check(c c20Case) *vResult {
 			if len(prompt) > 0 {
 				before = prompt[0].count(eventmon.EventTypeAuth)
 			}
-			if d := login(); d > 5*time.Second {
+			if d := login(); d > 20*time.Second {
 				res.violate("blocked-by-slow-subscriber:login", "a login took %v with %d stalled subscribers", d, c.Stalled)
 				return res
 			}
 			if len(prompt) > 0 {
-				deadline := time.Now().Add(3 * time.Second)
+				deadline := time.Now().Add(15 * time.Second)
 				for prompt[0].count(eventmon.EventTypeAuth) <= before && time.Now().Before(deadline) {
 					time.Sleep(2 * time.Millisecond)
 				}
@@ -281,12 +281,12 @@ func c20Check(c c20Case) *vResult {
 				before = prompt[0].count(eventmon.EventTypeServiceProviderLogin)
 			}
 			var resp *vResp
-			if d := watchdog(func() { resp = vServe(w.state.idpOpenIDCAuthorizationHandler, r) }); d > 5*time.Second {
-				res.violate("blocked-by-slow-subscriber:splogin", "a service-provider login did not complete within 6 s with %d stalled subscribers", c.Stalled)
+			if d := watchdog(func() { resp = vServe(w.state.idpOpenIDCAuthorizationHandler, r) }); d > 20*time.Second {
+				res.violate("blocked-by-slow-subscriber:splogin", "a service-provider login did not complete within 20 s with %d stalled subscribers", c.Stalled)
 				return res
 			}
 			if resp.Code == 302 && len(prompt) > 0 {
-				deadline := time.Now().Add(3 * time.Second)
+				deadline := time.Now().Add(15 * time.Second)
 				for prompt[0].count(eventmon.EventTypeServiceProviderLogin) <= before && time.Now().Before(deadline) {
 					time.Sleep(2 * time.Millisecond)
 				}
@@ -306,7 +306,7 @@ func c20Check(c c20Case) *vResult {
 			if atWrite == nil {
 				return
 			}
-			deadline := time.Now().Add(3 * time.Second)
+			deadline := time.Now().Add(15 * time.Second)
 			for si, s := range prompt {
 				for !s.has(atWrite) {
 					if time.Now().After(deadline) {
@@ -326,8 +326,8 @@ func c20Check(c c20Case) *vResult {
 			}()
 			instrumentedwriter.NewLoggingHandler(handler, httpLogger{}).ServeHTTP(cw, req)
 		})
-		if dur > 5*time.Second && missing < 0 {
-			res.violate("blocked-by-slow-subscriber:"+op, "op %d (%s) did not complete within 6 s with %d stalled subscribers", i, op, c.Stalled)
+		if dur > 20*time.Second && missing < 0 {
+			res.violate("blocked-by-slow-subscriber:"+op, "op %d (%s) did not complete within 20 s with %d stalled subscribers", i, op, c.Stalled)
 			return res
 		}
 		if panicked != "" {
@@ -343,7 +343,7 @@ func c20Check(c c20Case) *vResult {
 		issued++
 		if atWrite == nil {
 			// the body was written in several pieces: check once the response is complete
-			deadline := time.Now().Add(3 * time.Second)
+			deadline := time.Now().Add(15 * time.Second)
 			for si, s := range prompt {
 				for !s.has(final) && missing < 0 {
 					if time.Now().After(deadline) {
